@@ -23,7 +23,7 @@ for i in ids:
     if i not in claimed:
         continue
     t, text, note, ref = claimed[i]
-    text += " Families added by the eight seeded-change rounds (exhaustive short-history sweeps, size/shape/element-type families, re-entrancy, retained results, mode par, storms, ...) are listed in the As-built paragraph of " + ref + " and in the rule text of the evidence file."
+    text += " Families added by the seeded-change rounds (exhaustive short-history sweeps, size/shape/element-type families, re-entrancy, retained results, mode par, storms, ...) are listed in the As-built paragraph of " + ref + " and in the rule text of the evidence file."
     checks.append({
         "property_id": i,
         "quick_cmd": "./check %s quick" % i,
